@@ -489,6 +489,7 @@ def check_c15(tier, seed):
 def check_c17(tier, seed):
     out = Outcome("C17", tier, seed)
     run_batch(out, "meta", "A", gens.c17_histories(tier, seed))
+    run_batch(out, "setter-after-removal", "A", gens.c17_setter_after_removal(tier))
     hs = random_batches(seed + 6, tier, 30, 300, 40, dicts=("A",), meta_p=0.3)["A"]
     run_batch(out, "random", "A", hs)
     return finish(out, "model_checking",
